@@ -15,7 +15,8 @@ LEAN_TARGETS = ['Swiftness.Props.C07', 'Swiftness.Prover.FriProver']
 BUILDS = {'quick': [('k160', 'stone5')], 'thorough': [('k160', 'stone5'), ('b248', 'stone5')]}
 RULE = ('from each honest instance (random config as in C06, polynomial at the bound): one mutant per position class and position '
         '(sampled when a class has > 4 positions): value+1, point+1, leaf+1, auth+1, root+1, lastcoef+1, lastcoef appended/removed, leaf '
-        'removed, auth removed, layer witness dropped; plus high-degree inputs (length bound+1 .. 2*bound, honestly folded, last layer '
+        'removed, auth removed, layer witness dropped, auth / root + 2^160 / 2^248, points one short, last query junk with points and witness for the '
+        'other queries only; plus high-degree inputs (length bound+1 .. 2*bound, honestly folded, last layer '
         'truncated). non-trivial = mutated. The exponential decay in the number of queries is NOT measured (one run per instance).')
 ASSUMPTIONS = ['a hash collision / an accidental root of a difference polynomial among random test values is treated as impossible',
                'probabilistic part of the property (decay in #queries, dishonest folding) is not decided: see DESIGN section 10']
@@ -40,8 +41,11 @@ def cases(rng, tier, feats, drv_ok):
         ncoef = bound + 1 + rng.below(bound) if hi else bound
         specs.append((rng.choice([0, L // 2, 100]), steps, last, lnc, [rng.felt() or 1 for _ in range(ncoef)], Q, rng.felt(), 0, hi))
     built = F.build(feats, [s[:8] for s in specs])
+    # the same polynomial / transcript opened at all queries but the last one (for the dropped-query forgery below)
+    shorter = {i: s[:5] + (s[5][:-1],) + s[6:8] for i, s in enumerate(specs) if len(s[5]) >= 2 and not s[8]}
+    built_short = dict(zip(shorter, F.build(feats, list(shorter.values())))) if shorter else {}
     out = []
-    for s, toks in zip(specs, built):
+    for si, (s, toks) in enumerate(zip(specs, built)):
         d, c, hi = s[6], s[7], s[8]
         cfg = f'steps={s[1]} last={s[2]} blowup={s[3]} nf={s[0]} queries={len(s[5])}'
         if hi:
@@ -79,6 +83,21 @@ def cases(rng, tier, feats, drv_ok):
                 mut('auth-removed', F.WIT, lambda s_, w2=w2: F.fmt_wit(w2))
         if w:
             mut('layer-witness-dropped', F.WIT, lambda s_: F.fmt_wit(w[:-1]))
+        # high-bit aliases of hash-valued positions (authentication nodes, commitments)
+        for li, (leaves, auths) in enumerate(w):
+            if auths:
+                j = rng.below(len(auths))
+                for e in (160, 248):
+                    w2 = [list(map(list, x)) for x in w]; w2[li][1][j] = (w2[li][1][j] + (1 << e)) % P
+                    mut(f'auth+2^{e}', F.WIT, lambda s_, w2=w2: F.fmt_wit(w2))
+        each('root+2^248', F.ROOTS, bump=lambda x: (x + (1 << 248)) % P)
+        # vectors of unequal length: `points` / `values` one short (never reachable from stark_verify, which computes the points itself)
+        mut('points-truncated', F.POINTS, lambda s_: F.fmt_list(F.parse_list(s_)[:-1]))
+        if si in built_short:
+            # dropped-query forgery: the last query's value is junk, the points vector is one short and the witness opens only the other queries
+            ts = built_short[si]; t = list(toks)
+            t[F.VALUES] = F.fmt_list(F.parse_list(ts[F.VALUES]) + [rng.felt()]); t[F.POINTS] = ts[F.POINTS]; t[F.WIT] = ts[F.WIT]
+            out.append({'line': F.fri_line(d, c, t), 'kind': 'last-query-dropped', 'expect': 'reject', 'cfg': cfg})
     return out
 
 
